@@ -231,3 +231,17 @@ func init() {
 	mut("C09", "(benign) V2TransactionWeight copies the input explicitly", false, "",
 		Edit{"consensus/state.go", "\tfor _, sci := range txn.SiacoinInputs {\n\t\tsci.Parent.StateElement.MerkleProof = nil\n\t\tsci.EncodeTo(e)\n\t}", "\tfor i := range txn.SiacoinInputs {\n\t\tsci := txn.SiacoinInputs[i]\n\t\tsci.Parent.StateElement.MerkleProof = nil\n\t\tsci.EncodeTo(e)\n\t}"})
 }
+
+func init() {
+	// ---- C14 ----
+	p := "types/policy.go"
+	mut("C14", "leftover preimages accepted", true, "no-leftover-preimages", Edit{p, "\t} else if len(preimages) > 0 {\n\t\treturn errors.New(\"superfluous preimage(s)\")\n\t}", "\t}"})
+	mut("C14", "threshold: at least N instead of exactly N", true, "threshold-not-exceeded", Edit{p, "\t\t\t\t\tif satisfied == p.N {\n\t\t\t\t\t\treturn errors.New(\"threshold exceeded\")", "\t\t\t\t\tif satisfied > p.N {\n\t\t\t\t\t\treturn errors.New(\"threshold exceeded\")"})
+	mut("C14", "Address() hashes children without opacifying them", true, "children-opacified",
+		Edit{p, "\t\tfor i := range pt.Of {\n\t\t\tpt.Of[i] = PolicyOpaque(pt.Of[i])\n\t\t}\n", ""})
+	mut("C14", "Address() opacifies in the caller's slice", true, "does-not-write-policy", Edit{p, "\t\tpt.Of = append([]SpendPolicy(nil), pt.Of...)\n", "\t\tpt.Of = append(pt.Of[:0], pt.Of...)\n"})
+	mut("C14", "String() loses the after case", true, "policy-exhaustive", Edit{p, "\tcase PolicyTypeAfter:\n\t\tsb.WriteString(\"after(\")\n\t\tsb.WriteString(strconv.FormatInt(time.Time(p).Unix(), 10))\n\t\tsb.WriteByte(')')\n\n", ""})
+	mut("C14", "hash leaf accepts any preimage", true, "hash-leaf-matches", Edit{p, "if preimage, ok := nextPreimage(); ok && p == sha256.Sum256(preimage[:]) {", "if preimage, ok := nextPreimage(); ok && (p == sha256.Sum256(preimage[:]) || preimage[0] == 0) {"})
+	mut("C14", "signature cursor advances by two", true, "cursor", Edit{p, "\t\t\tsig, sigs = sigs[0], sigs[1:]\n", "\t\t\tsig, sigs = sigs[0], sigs[min(2, len(sigs)):]\n"})
+	mut("C14", "empty threshold accepted without consulting N", true, "threshold", Edit{p, "\t\tcase PolicyTypeThreshold:\n", "\t\tcase PolicyTypeThreshold:\n\t\t\tif len(p.Of) == 0 {\n\t\t\t\treturn nil\n\t\t\t}\n"})
+}
